@@ -21,9 +21,12 @@ pub fn handle_mget(storage: &Arc<StorageEngine>, db: usize, parts: &[RespFrame])
             _ => return Ok(RespFrame::error("ERR invalid key format")),
         };
         
-        match storage.get_string(db, key)? {
-            Some(value) => values.push(RespFrame::from_bytes(value)),
-            None => values.push(RespFrame::null_bulk()),
+        // A key that holds another type counts as missing: MGET never fails because of one key
+        match storage.get_string(db, key) {
+            Ok(Some(value)) => values.push(RespFrame::from_bytes(value)),
+            Ok(None) => values.push(RespFrame::null_bulk()),
+            Err(crate::error::FerrousError::Storage(crate::error::StorageError::WrongType)) => values.push(RespFrame::null_bulk()),
+            Err(e) => return Err(e),
         }
     }
     
